@@ -756,6 +756,11 @@ func (w *World) VerifCheckInvariants() (err error) {
 				if m, ok := nd.archetypeMap[a.RelationTarget]; !ok || m != a {
 					return fmt.Errorf("node %d %v: active table %d for target %v is not in the target map", i, nd.Ids, j, a.RelationTarget)
 				}
+				// a table whose target died is retired as soon as it is empty (cleanupArchetype / cleanupArchetypes): an
+				// active empty table of a dead target is never retired any more and shows in Stats() as a leaked table
+				if nd.HasRelation && a.len == 0 && !a.RelationTarget.IsZero() && !w.entityPool.Alive(a.RelationTarget) {
+					return fmt.Errorf("node %d %v: active table %d is empty and its target %v is dead, but it was not retired (leaked table)", i, nd.Ids, j, a.RelationTarget)
+				}
 			} else {
 				if free[j] != 1 {
 					return fmt.Errorf("node %d %v: inactive table %d is not on the free list", i, nd.Ids, j)
